@@ -18,8 +18,8 @@ RULE = ("operation sequences (get, set, del, in, keys, values, items, len, clear
         "from dict/pairs/kwargs, setdefault, get-with-default; for ID3 also add/getall/setall/delall) of length <= 40 (quick) / "
         "<= 200 (thorough) over, per object kind, a key universe with case variants, invalid keys (empty, one char, non-ASCII, "
         "OggS/ID3/TAG/MP+, '=', 0x7E/0x7F, 255/256/300 chars, non-str keys, unhashable keys) and every registered Easy key and "
-        "instantiated Easy key pattern, with values of accepted and rejected types; 14 object kinds: DictProxy, APEv2, "
-        "VCommentDict, ID3, MP4Tags, ASFTags, EasyID3 (exact keys / performer:* / replaygain_*), EasyMP4Tags, FLAC proxy (with tags / tags None), "
+        "instantiated Easy key pattern, with values of accepted and rejected types; 16 object kinds: DictProxy, APEv2, "
+        "VCommentDict, ID3 (str keys / non-str keys), MP4Tags, ASFTags, EasyID3 (exact keys / performer:* / replaygain_* / glob keys with case variants), EasyMP4Tags, FLAC proxy (with tags / tags None), "
         "MP3 proxy (with tags / tags None). A case = one sequence on one kind; non-trivial = at least one "
         "state-changing operation succeeded and at least one operation raised; distinct by (kind, op-name sequence, number of "
         "distinct keys)")
@@ -252,7 +252,8 @@ def ref_apply(ref, pol, op):
         if name == "upd":       # pairs are set one by one; the first raising pair stops the loop, earlier ones stay
             for k, v in op[1]:
                 if do_set(k, v) is UNSPEC:
-                    return Expect(ok=ANY, err=pol.unspec_errors, adopt=True)
+                    # accepted or rejected here, and any later pair may raise its own documented error
+                    return Expect(ok=ANY, err=("KeyError", "TypeError", "ValueError"), adopt=True)
             return Expect(ok=["n"])
         if name == "clear":
             ref.d.clear(); ref.key.clear(); ref.spell.clear()
@@ -491,7 +492,7 @@ class Id3Kind(Kind):
 
     def new_env(self): return Id3Env()
     def keys_universe(self, rng): return [S(k) for k in ID3_KEYS]
-    def wild_keys(self): return WILD_KEYS
+    def wild_keys(self): return [["l", [["s", "a"]]]]
 
     def frame_spec(self, rng):
         fid, kw, hkey = rng.choice(FRAME_SPECS)
@@ -539,6 +540,13 @@ class Id3Kind(Kind):
             for fs in op[2]:
                 ref.put(hashkey(fs), ["frame", fs[3]], hashkey(fs))
             return Expect(ok=["n"])
+
+
+class Id3NonStrKind(Id3Kind):
+    """ID3 with keys that are not str (ID3Tags.__setitem__ checks the value, not the key)"""
+    name = "ID3:non-str-keys"
+
+    def keys_universe(self, rng): return [S(k) for k in ID3_KEYS[:12]] + WILD_KEYS[:5]
 
 
 # ---- MP4Tags
@@ -799,20 +807,24 @@ class EasyKind(Kind):
                 out.append((k, k))
         return out
 
-    family = None        # None: the exactly registered keys; else a substring of the glob entries of this family
+    family = None        # None: the exactly registered keys; else substrings of the glob entries of this family
     companions = ("title", "artist")
+    case_variants = True
 
     def keys_universe(self, rng):
         if self.family is None:
             ck = [k for k, pat in self.concrete_keys() if "*" not in pat]
         else:
-            ck = [k for k, pat in self.concrete_keys() if "*" in pat and self.family in pat]
+            ck = [k for k, pat in self.concrete_keys() if "*" in pat and any(f in pat for f in self.family)]
             ck += [k for k, pat in self.concrete_keys() if k in self.companions]
+        if not self.case_variants:
+            ck = sorted({k.lower() for k in ck})
         pick = rng.sample(ck, min(len(ck), 8))
         out = []
         for k in pick:
             out.append(k)
-            out.append(rng.choice([k.upper(), k.title(), k.lower(), k.swapcase()]))
+            if self.case_variants:
+                out.append(rng.choice([k.upper(), k.title(), k.lower(), k.swapcase()]))
         out += ["nosuchkey", "", "é", "performer", "title\x00"]
         return [S(k) for k in out]
 
@@ -915,15 +927,22 @@ class EasyId3Kind(EasyKind):
 
 
 class EasyId3PerformerKind(EasyId3Kind):
-    name = "EasyID3:performer"; family = "performer"
+    """glob entry performer:*, roles in lower case only"""
+    name = "EasyID3:performer"; family = ("performer",); case_variants = False
 
 
 class EasyId3GainKind(EasyId3Kind):
-    name = "EasyID3:replaygain"; family = "replaygain"
+    """glob entries replaygain_*_gain / replaygain_*_peak, names in lower case only"""
+    name = "EasyID3:replaygain"; family = ("replaygain",); case_variants = False
 
     def values_universe(self, rng):
         return [S("+1.5 dB"), S("0.5"), S("0"), S("0.0"), S("-3 dB"), S("1.999"), S("3.0"), S("x"), L(S("1"), S("2")), L(),
                 S("99999 dB"), S("0.25")]
+
+
+class EasyId3GlobCaseKind(EasyId3Kind):
+    """keys matching a glob entry, with case variants of the part matched by `*`"""
+    name = "EasyID3:glob-case"; family = ("performer", "replaygain")
 
 
 class EasyMp4Kind(EasyKind):
@@ -1046,8 +1065,8 @@ class Mp3NoTagsKind(Mp3Kind):
     name = "MP3-proxy:no-tags"; sample = "no-tags.mp3"
 
 
-KINDS = [ProxyKind(), ApeKind(), VcKind(), Id3Kind(), Mp4Kind(), AsfKind(), EasyId3Kind(), EasyId3PerformerKind(),
-         EasyId3GainKind(), EasyMp4Kind(),
+KINDS = [ProxyKind(), ApeKind(), VcKind(), Id3Kind(), Id3NonStrKind(), Mp4Kind(), AsfKind(), EasyId3Kind(), EasyId3PerformerKind(),
+         EasyId3GainKind(), EasyId3GlobCaseKind(), EasyMp4Kind(),
          FlacKind(), FlacNoTagsKind(), Mp3Kind(), Mp3NoTagsKind()]
 KIND_BY_NAME = {k.name: k for k in KINDS}
 
@@ -1312,7 +1331,7 @@ def gen_ops(kind, rng, maxlen, wild):
     if base:
         b = rng.choice(base)
         for var in (b[1].upper(), b[1].lower(), b[1].title()):
-            if any(k == S(var) for k in keys) or isinstance(kind, (EasyKind,)):
+            if any(k == S(var) for k in keys) or (isinstance(kind, EasyKind) and kind.case_variants):
                 kset.append(S(var))
     n = rng.randrange(1, maxlen + 1)
     names = list(kind.ops) + list(kind.extra_ops)
@@ -1342,7 +1361,7 @@ def gen_ops(kind, rng, maxlen, wild):
             mode = rng.choice(["dict", "pairs", "kw"])
             if mode in ("dict", "kw"):
                 # what dict(pairs) keeps: one entry per key, first position, last value
-                if not all(kind.policy.hashable(p[0]) for p in pairs) or (mode == "kw" and not all(p[0][0] == "s" for p in pairs)):
+                if not all(Policy.hashable(kind.policy, p[0]) for p in pairs) or (mode == "kw" and not all(p[0][0] == "s" for p in pairs)):
                     mode = "pairs"
                 else:
                     d = collections.OrderedDict()
@@ -1477,14 +1496,50 @@ def report(ctx, kind, ops, law, what, seen):
     ctx.violation(key, "%s: %s" % (kind.name, w[0] if w else what), {"kind": kind.name, "law": law, "ops": small})
 
 
+# minimised sequences of past failures, run first on every tier (kind name, ops)
+CORPUS = [
+    ("EasyID3", [["set", S("website"), S("http://a")], ["set", S("website"), ["i", 3]]]),
+    ("EasyID3", [["upd", [[S("title"), S("x")], [["n"], S("y")]], "dict"]]),
+    ("EasyID3", [["del", S("website")]]),
+    ("EasyID3", [["in", ["i", 3]]]),
+    ("EasyID3", [["set", S("musicbrainz_trackid"), L(["i", 3])]]),
+    ("EasyID3:replaygain", [["set", S("replaygain_album_gain"), S("+1.5 dB")], ["set", S("replaygain_album_peak"), S("0.5")],
+                            ["del", S("replaygain_album_gain")]]),
+    ("EasyID3:replaygain", [["set", S("replaygain_album_gain"), S("99999 dB")]]),
+    ("EasyID3:replaygain", [["del", S("replaygain_album_peak")]]),
+    ("EasyID3:glob-case", [["set", S("performer:Guitar"), S("x")], ["get", S("performer:guitar")]]),
+    ("EasyID3:glob-case", [["set", S("REPLAYGAIN_ALBUM_GAIN"), S("1 dB")], ["get", S("replaygain_album_gain")]]),
+    ("EasyMP4Tags", [["in", ["n"]]]),
+    ("ASFTags", [["set", L(S("a")), S("x")]]),
+    ("ID3:non-str-keys", [["set", ["i", 0], ["frame", "TIT2", {"encoding": 3, "text": ["t"]}, "c1:TIT2"]], ["getall", S("TXXX")]]),
+    ("APEv2", [["set", S("Title"), S("x")], ["set", S("TITLE"), L(S("a"), S("b"))], ["keys"], ["get", S("title")],
+               ["set", S("OggS"), S("x")], ["in", S("OggS")], ["del", S("tItLe")], ["len"]]),
+    ("VCommentDict", [["set", S("Title"), S("x")], ["set", S("TITLE"), L(S("a"), S("b"))], ["keys"], ["get", S("title")],
+                      ["set", S("a=b"), S("x")], ["set", S("title"), L()], ["in", S("TITLE")], ["len"]]),
+    ("FLAC-proxy:no-tags", [["get", S("a=b")], ["set", S("a=b"), S("x")], ["get", S("a=b")], ["set", S("T"), S("x")], ["pop", S("t")]]),
+    ("MP3-proxy:no-tags", [["get", S("TIT2")], ["set", S("TIT2"), S("x")], ["keys"],
+                           ["set", S("TIT2"), ["frame", "TIT2", {"encoding": 3, "text": ["t"]}, "c2:TIT2"]], ["pop", S("TIT2")]]),
+]
+
+
 def run(ctx):
     ctx.rule = RULE
     rng = ctx.rng
     maxlen = ctx.budget(40, 200)
-    nseq = ctx.budget(90, 700)
+    nseq = ctx.budget(200, 700)
     seen = {}
     use_driver = driver_available(ctx)
     pending = []        # (kind, ops, outs) for the driver
+    for kname, ops in CORPUS:
+        kind = KIND_BY_NAME[kname]
+        viol, r = run_sequence(kind, ops)
+        ctx.hist["corpus"] += 1
+        modelled = kind.modelled is not None and all(modelled_op(op) for op in ops)
+        ctx.case(key=("corpus", kname, hk(ops)), nontrivial=True, modelled=modelled)
+        for law, what, _ in viol:
+            report(ctx, kind, ops, law, what, seen)
+        if use_driver and modelled and len(r.outs) == len(ops):
+            pending.append((kind, ops, r))
     for kind in KINDS:
         per = nseq if not isinstance(kind, ProxyFileKind) else max(20, nseq // 3)
         for si in range(per):
